@@ -876,6 +876,12 @@ class Epoch(object):
         if isinstance(year, (int, float)) and isinstance(doy, (int, float)):
             frac = float(doy % 1)
             doy = int(doy)
+            # The day of the year must exist (1582 has only 355 days)
+            length = 366 if Epoch.is_leap(year) else 365
+            if year == 1582:
+                length = 355
+            if doy < 1 or doy > length:
+                raise ValueError("Invalid input values")
             # In 1582, October 4th (day 277) was followed by October 15th
             if year == 1582 and doy > 277:
                 doy += 10
